@@ -1,4 +1,5 @@
 import CbiVerif.PP.CSource
+import CbiVerif.Model.EvalPP
 import CbiVerif.Model.Assoc
 /-! Single-file end-to-end model: parse_file → DirectiveParser.parse → SourceTree.insert → ParserState.associate.
 
@@ -114,7 +115,7 @@ def langOf (nodes : Array PNode) : Cond.Lang Macro Err where
     | _ => .nop
   cond := fun tbl i =>
     match runExpand tbl nodes[i]!.toks with
-    | .ok ts => evaluate ts
+    | .ok ts => CbiVerif.Eval.evaluatePP ts
     | .error e => .error e
     | .sig s => .error (.other s)
 
